@@ -411,6 +411,38 @@ def check_trace(trace_path, data_path):
     viol = []
     stats = {"syscalls_on_data_file": 0, "opens_of_data_file": 0, "processes": 0, "processes_reading_data_file": set()}
     first = None
+    # first pass: which tids are threads of which process. A clone call is often split into an "unfinished" line (with the
+    # flags) and a "resumed" line (with the new tid), and the new thread's own calls may appear between the two
+    thread_parent = {}
+    clone_flags = {}
+    with open(trace_path, errors="replace") as f:
+        for raw in f:
+            m = _LINE.match(raw.rstrip("\n"))
+            if not m:
+                continue
+            tid, rest = int(m.group(1)), m.group(2)
+            if rest.startswith("<..."):
+                mm = re.match(r"<\.\.\. (\w+) resumed>", rest)
+                if not mm or mm.group(1) not in ("clone", "clone3", "fork", "vfork"):
+                    continue
+                flags = clone_flags.pop(tid, "")
+            else:
+                if rest.split("(", 1)[0] not in ("clone", "clone3", "fork", "vfork"):
+                    continue
+                flags = rest
+                if rest.endswith("<unfinished ...>"):
+                    clone_flags[tid] = rest
+                    continue
+            mres = re.search(r"=\s*(\d+)\s*$", rest)
+            if mres and ("CLONE_THREAD" in flags or "CLONE_FILES" in flags):
+                thread_parent[int(mres.group(1))] = tid
+
+    def leader(t):
+        seen = set()
+        while t in thread_parent and t not in seen:
+            seen.add(t)
+            t = thread_parent[t]
+        return t
     with open(trace_path, errors="replace") as f:
         for raw in f:
             m = _LINE.match(raw.rstrip("\n"))
@@ -420,7 +452,7 @@ def check_trace(trace_path, data_path):
             if first is None:
                 first = tid
             if tid not in group:
-                group[tid] = tid
+                group[tid] = leader(tid)
             g = group[tid]
             own.setdefault(g, set())
             if rest.startswith("<..."):
@@ -436,9 +468,8 @@ def check_trace(trace_path, data_path):
                 mres = re.search(r"=\s*(\d+)\s*$", rest)
                 if mres:
                     child = int(mres.group(1))
-                    flags_src = rest
-                    if "CLONE_THREAD" in flags_src or "CLONE_FILES" in flags_src:
-                        group[child] = g
+                    if leader(child) != child:
+                        group[child] = leader(child)        # a thread (known from the first pass)
                     else:
                         group[child] = child
                         own.setdefault(child, set())
